@@ -386,6 +386,8 @@ func (l *lockedBuilder) String() string {
 	return l.b.String()
 }
 
+var kInitCommand []string // InitCommand for the next kBuildContainer (C16 scenario)
+
 // kBuildContainer builds a container with the probe's directory bind-mounted read-only at /probe.
 func kBuildContainer(extraMounts func(b *mount.Builder), cred container.CredGenerator, stderr io.Writer) (*kContainer, error) {
 	root, err := os.MkdirTemp(kDir, "croot")
@@ -402,7 +404,7 @@ func kBuildContainer(extraMounts func(b *mount.Builder), cred container.CredGene
 	if extraMounts != nil {
 		extraMounts(mb)
 	}
-	b := container.Builder{Root: root, Mounts: mb.FilterNotExist().Mounts, Stderr: stderr, CredGenerator: cred}
+	b := container.Builder{Root: root, Mounts: mb.FilterNotExist().Mounts, Stderr: stderr, CredGenerator: cred, InitCommand: kInitCommand}
 	var env container.Environment
 	for attempt := 0; attempt < 4; attempt++ {
 		// Build pings the new init with a 3 s deadline; on a fully loaded machine that can expire
